@@ -88,3 +88,139 @@ def py_process_region(text, name, states):
     m = re.search(r"self\.context\.On(\w+)Entry\(EventStartup\(\)\)\n\s+self\.currentState = %sStateId\.c(\w+)" % re.escape(name), text)
     init = m.group(1) if m and m.group(1) == m.group(2) else None
     return dict(fns=fns, init=init, chain=chain, errors=errors, tails_ok=tails_ok)
+
+
+def cs_internals(text, name):
+    """state classes of <name>Internals.cs -> [{state, evs:[{ev, blocks:[{guard, body}]}], entry, exit}], reset state"""
+    errors = []
+    classes = []
+    for m in re.finditer(r"internal class (\w+) : %sState\s*\{" % re.escape(name), text):
+        start = m.end()
+        depth, i = 1, start
+        while depth and i < len(text):
+            depth += {"{": 1, "}": -1}.get(text[i], 0)
+            i += 1
+        body = text[start:i - 1]
+        cls = dict(state=m.group(1), evs=[])
+        for hm in re.finditer(r"internal override void Trigger(\w+)\(I%sContext context, %sStateMachine sm, (\w+) data\)\s*\{" % (re.escape(name), re.escape(name)), body):
+            if hm.group(1) != hm.group(2):
+                errors.append("handler Trigger%s takes %s" % (hm.group(1), hm.group(2)))
+            hs = hm.end()
+            d, j = 1, hs
+            while d and j < len(body):
+                d += {"{": 1, "}": -1}.get(body[j], 0)
+                j += 1
+            hbody = body[hs:j - 1]
+            ev = dict(ev=hm.group(1), blocks=[])
+            pos = 0
+            toks = re.compile(r"\s*(?:if \(context\.(\w+)\(\)\)\s*)?\{([^{}]*)\}", re.S)
+            while True:
+                bm = toks.match(hbody, pos)
+                if not bm:
+                    break
+                blk = dict(guard=bm.group(1), body=[])
+                for st in [x.strip() for x in bm.group(2).split(";") if x.strip()]:
+                    m1 = re.match(r"^sm\.Exit<(\w+)>\(\)$", st)
+                    m2 = re.match(r"^sm\.Enter<(\w+)>\(\)$", st)
+                    m3 = re.match(r"^sm\.estate = E%sState\.(\w+)$" % re.escape(name), st)
+                    m4 = re.match(r"^context\.(\w+)\(data\)$", st)
+                    if m1:
+                        blk["body"].append(["exit", m1.group(1)])
+                    elif m2:
+                        blk["body"].append(["entry", m2.group(1)])
+                    elif m3:
+                        blk["body"].append(["assign", m3.group(1)])
+                    elif m4:
+                        blk["body"].append(["action", m4.group(1), hm.group(1)])
+                    elif st == "return":
+                        blk["body"].append(["return"])
+                    else:
+                        errors.append("unexpected statement: " + st)
+                ev["blocks"].append(blk)
+                pos = bm.end()
+            if hbody[pos:].strip():
+                errors.append("unparsed handler text: " + hbody[pos:].strip()[:60])
+            cls["evs"].append(ev)
+        me = re.search(r"internal override void OnEntry\(I%sContext context\)\s*\{\s*context\.On(\w+)Entry\(\);\s*\}" % re.escape(name), body)
+        mx = re.search(r"internal override void OnExit\(I%sContext context\)\s*\{\s*context\.On(\w+)Exit\(\);\s*\}" % re.escape(name), body)
+        cls["entry"] = me.group(1) if me else None
+        cls["exit"] = mx.group(1) if mx else None
+        classes.append(cls)
+    mr = re.search(r"internal void Reset\(\)\s*\{\s*Enter<(\w+)>\(\);\s*estate = E%sState\.(\w+);" % re.escape(name), text)
+    reset = mr.group(1) if mr and mr.group(1) == mr.group(2) else None
+    enum = re.search(r"internal enum E%sState : ushort\s*\{([^}]*)\}" % re.escape(name), text)
+    enum_members = [x.strip() for x in enum.group(1).split(",") if x.strip()] if enum else []
+    base = re.findall(r"internal virtual void Trigger(\w+)\(I%sContext context, %sStateMachine sm, (\w+) data\)\{\}" % (re.escape(name), re.escape(name)), text)
+    return dict(classes=classes, reset=reset, enum=enum_members, base=base, errors=errors)
+
+
+def cs_context(text, name, states):
+    m = re.search(r"public interface I%sContext\s*\{(.*?)\};" % re.escape(name), text, re.S)
+    out = []
+    errors = []
+    if not m:
+        return dict(decls=[], errors=["context interface not found"])
+    for st in [x.strip() for x in m.group(1).split(";") if x.strip()]:
+        st = re.sub(r"^(///[^\n]*\n\s*)+", "", st).strip()
+        st = "\n".join(l for l in st.splitlines() if not l.strip().startswith("//")).strip()
+        if not st:
+            continue
+        m1 = re.match(r"^bool (\w+)\(\)$", st)
+        m2 = re.match(r"^void (\w+)\((\w+) data\)$", st)
+        m3 = re.match(r"^void On(\w+)Entry\(\)$", st)
+        m4 = re.match(r"^void On(\w+)Exit\(\)$", st)
+        if m1:
+            out.append(["guard", m1.group(1)])
+        elif m3 and m3.group(1) in states:
+            out.append(["entry", m3.group(1)])
+        elif m4 and m4.group(1) in states:
+            out.append(["exit", m4.group(1)])
+        elif m2:
+            out.append(["action", m2.group(1), m2.group(2)])
+        else:
+            errors.append("unexpected member: " + st[:80])
+    return dict(decls=out, errors=errors)
+
+
+def sml_table(text):
+    """rows of make_transition_table( ... ) -> list like the Lean EmitSml rows"""
+    m = re.search(r"return make_transition_table\(\n(.*?)\n\s*\);", text, re.S)
+    if not m:
+        return None, ["make_transition_table not found"]
+    rows, errors = [], []
+    for ln in m.group(1).splitlines():
+        s = ln.strip()
+        if not s or s.startswith("//"):
+            continue
+        me = re.match(r"^, state<(\w+)> \+ boost::sml::on_(entry|exit)<_> / (\w+)$", s)
+        if me:
+            exp = me.group(1)[0].lower() + me.group(1)[1:] + ("OnEntry" if me.group(2) == "entry" else "OnExit")
+            if me.group(3) != exp:
+                errors.append("hook %s for state %s" % (me.group(3), me.group(1)))
+            rows.append([me.group(2), me.group(1)])
+            continue
+        mt = re.match(r"^(\*|,)\s*state<(\w+)>\s*\+event<(\w+)>\s*\[(\w+)\]\s*/\s*(\w+)(?:\s*=\s*state<(\w+)>)?$", s)
+        if mt:
+            rows.append(["trans", mt.group(1) == "*", mt.group(2), mt.group(3), mt.group(4), mt.group(5), mt.group(6)])
+            continue
+        errors.append("unparsed row: " + s)
+    return rows, errors
+
+
+def cpp_decls(impl, ctrl, smh, name):
+    """names declared by the generated C++ units (multisets as lists)"""
+    d = {}
+    d["state_fwd"] = re.findall(r"^    struct (\w+);$", impl, re.M)
+    d["guard_structs"] = re.findall(r"struct (\w+)\s*\{\s*bool operator\(\)\(controllertype& ctrl\)", impl)
+    d["entry_structs"] = re.findall(r"struct (\w+)OnEntry\{", impl)
+    d["exit_structs"] = re.findall(r"struct (\w+)OnExit\{", impl)
+    d["action_structs"] = re.findall(r"struct (\w+)\s*\{\s*template <class Event>", impl)
+    d["instances"] = re.findall(r"^            (\w+)\s+(\w+);$", impl, re.M)
+    d["ctrl_guards"] = re.findall(r"virtual bool (\w+)\(\)", ctrl)
+    d["ctrl_entry"] = re.findall(r"virtual void (\w+)_on_entry\(\)", ctrl)
+    d["ctrl_exit"] = re.findall(r"virtual void (\w+)_on_exit\(\)", ctrl)
+    d["ctrl_actions"] = re.findall(r"virtual void (\w+)\((\w+) const& data\)", ctrl)
+    d["events"] = re.findall(r"struct (\w+) : public Event", ctrl)
+    d["is_state"] = re.findall(r"virtual bool Is(\w+)\(\) const = 0;", smh)
+    d["triggers"] = re.findall(r"virtual void Trigger(\w+)\(", smh)
+    return d
